@@ -94,3 +94,6 @@ Fixpoint comp_prefix (p q : list str) : bool :=   (* p is a prefix of q, by whol
   | _ :: _, [] => false
   | x :: p', y :: q' => str_eqb x y && comp_prefix p' q'
   end.
+
+(* The implementation at the current commit (after "fix: is_prefix_of ...") indexes bytes. *)
+Definition is_prefix_of : str -> str -> bool := is_prefix_of_gen false.
